@@ -326,6 +326,8 @@ class Interp:
         return collapse_choice(alts)
 
     def opaque_field(self, st, v, i, tyj):
+        if v.kind == "box":
+            return v
         if v.kind == "reader":
             # deku Reader fields: 0 inner, 1 leftover, 2 last_bits_read_amt, 3 bits_read
             if i == 2:
@@ -536,6 +538,24 @@ class Interp:
             return UNIT
         v = c.get("val")
         if v:
+            inner0 = tyj["to"] if tyj.get("k") == "ref" else tyj
+            if inner0.get("k") == "adt" and inner0["path"] in self.prog.adts:
+                adt = self.prog.adts[inner0["path"]]
+                if adt["kind"] == "enum" and all(not vv["fields"] for vv in adt["variants"]):
+                    d = None
+                    if v["kind"] == "scalar":
+                        d = int(v["bits"], 16)
+                    elif v["kind"] in ("bytes", "ref_bytes") and v.get("bytes"):
+                        d = 0
+                        for j, b in enumerate(v["bytes"]):
+                            d |= b << (8 * j)
+                    if d is not None:
+                        for vv in adt["variants"]:
+                            if vv["discr"] is not None and (vv["discr"] & ((1 << (8 * max(1, len(v.get("bytes") or [0])))) - 1)) == d or vv["discr"] == d:
+                                val = AdtVal(inner0["path"], vv["idx"], [], "adt", vv["name"])
+                                if tyj.get("k") == "ref":
+                                    return Opaque.make("constref", arr=val)
+                                return val
             if v["kind"] == "str":
                 return Opaque.make("str", s=v["str"])
             if v["kind"] in ("bytes", "ref_bytes", "slice_bytes"):
@@ -610,8 +630,34 @@ class Interp:
         v = self.operand(st, fr, op)
         if isinstance(v, Choice):
             pl = op.get("copy") or op.get("move")
+            j = self.join_choice(v)
+            if j is not None:
+                self.write_loc(st, self.place_loc(st, fr, pl), j)
+                return j
             raise NeedSplit(self.place_loc(st, fr, pl))
         return v
+
+    def join_choice(self, ch):
+        """sound join (conditions dropped) of a choice between many plain numbers; None if it should be split"""
+        vals = [x for _d, x in ch.alts]
+        if all(isinstance(x, FloatVal) for x in vals):
+            terms = sorted(set(repr(x.term) for x in vals))
+            d = frozenset()
+            for x in vals:
+                d |= x.deps
+            consts = set(x.const for x in vals)
+            lo = hi = None
+            if all(x.lo is not None and x.hi is not None for x in vals):
+                lo, hi = min(x.lo for x in vals), max(x.hi for x in vals)
+            tt = [x.term for x in vals]
+            term = ("phi",) + tuple(t for t in tt) if all(t is not None for t in tt) and len(tt) <= 4 else None
+            return FloatVal(vals[0].bits, const=consts.pop() if len(consts) == 1 else None, term=term, deps=d, lo=lo, hi=hi)
+        if len(vals) > self.opts.get("choice_join_threshold", 6) and all(isinstance(x, IntVal) for x in vals) and len(set(x.ty.key() for x in vals)) == 1:
+            out = vals[0]
+            for x in vals[1:]:
+                out = join_int(out, x)
+            return out.fresh()
+        return None
 
     # ----------------------------------------------------------------- integer transfer functions
     def reduce_int(self, st, v):
@@ -1250,6 +1296,10 @@ class Interp:
     def do_assert(self, st, fr, a):
         cond = self.operand(st, fr, a["cond"])
         expected = 1 if a["expected"] else 0
+        if a["kind"] in ("MisalignedPointerDereference", "NullPointerDereference"):
+            # compiler-inserted debug checks on raw pointers (vec!/Box internals): trusted
+            self.goto(st, fr, a["target"])
+            return None
         key = self.site_key(fr.fn, a.get("span"), "assert:" + a["kind"])
         ok = isinstance(cond, IntVal) and cond.is_const() and cond.lo == expected
         if not ok and isinstance(cond, IntVal) and cond.cmp is not None and cond.cmp[0] != "ovf":
@@ -1698,6 +1748,10 @@ class Interp:
             else:
                 return self.unknown_call(st, fr, {"path": "<indirect>", "full": "<indirect>"}, args, dest, target, call)
         path = callee.get("resolved") or callee["path"]
+        stub = self.opts.get("stubs", {}).get(path) if self.opts.get("stubs") else None
+        if stub is not None:
+            from .summaries import CallCtx
+            return stub(CallCtx(self, st, fr, callee, args, dest, target, call, base))
         # 1. external summaries first when they explicitly claim the callee
         if self.summaries is not None:
             r = self.summaries.dispatch(self, st, fr, callee, args, dest, target, call, base)
